@@ -192,7 +192,10 @@ func TestLifecycle(t *testing.T) {
 				}
 				trace.U(3, uint64(l.info.SSRC))
 				logOp("BindLocalStream %#x", l.info.SSRC)
-				l.sink = &kit.RTPSink{HoldYields: 20} // a slow transport: asynchronous writers are still busy when lifecycle calls arrive
+				l.sink = &kit.RTPSink{HoldYields: 20}
+				if strings.HasPrefix(name, "nack-responder") {
+					l.sink.HoldSleep = 100 * time.Microsecond // retransmissions are written from goroutines of the interceptor: keep them busy for a while
+				} // a slow transport: asynchronous writers are still busy when lifecycle calls arrive
 				guard("BindLocalStream", func() { l.w = ic.BindLocalStream(l.info, l.sink) })
 				l.bound, l.sent = true, 0
 				l.binds++
@@ -293,6 +296,12 @@ func TestLifecycle(t *testing.T) {
 				guard("UnbindRemoteStream", func() { ic.UnbindRemoteStream(r.info) })
 				r.bound = false
 				from := rtcpSink.Len()
+				if rtcpIn != nil && rapid.Bool().Draw(t, "lateSR") {
+					// a sender report of the stream that has just been removed still arrives: it must not bring the stream back
+					raw, _ := rtcp.Marshal([]rtcp.Packet{&rtcp.SenderReport{SSRC: r.info.SSRC, NTPTime: 1 << 40, RTPTime: 1, PacketCount: 1, OctetCount: 1}})
+					rtcpSrc.Push(raw)
+					guard("RTCP Read", func() { _, _, _ = rtcpIn.Read(make([]byte, 1500), interceptor.Attributes{}) })
+				}
 				time.Sleep(5 * interval)
 				unbindThenTicks = unbindThenTicks || writerBound
 				if n, kind := countAbout(rtcpSink.Calls()[from:], r.info.SSRC); n > 1 {
@@ -487,11 +496,21 @@ func TestLifecycle(t *testing.T) {
 					}(c)
 				}
 				if !concurrent && rtcpIn != nil && rapid.Bool().Draw(t, "nackJustBeforeClose") {
+					unbindFirst := rapid.Bool().Draw(t, "unbindAllBeforeClose")
 					for _, l := range locals {
 						if l.bound && l.sent > 0 { // asynchronous answers (retransmissions) to this must have finished when Close returns
 							raw, _ := rtcp.Marshal([]rtcp.Packet{&rtcp.TransportLayerNack{SenderSSRC: 9, MediaSSRC: l.info.SSRC, Nacks: []rtcp.NackPair{{PacketID: l.seq - 16, LostPackets: 0xffff}}}})
 							rtcpSrc.Push(raw)
 							guard("RTCP Read", func() { _, _, _ = rtcpIn.Read(make([]byte, 1500), interceptor.Attributes{}) })
+						}
+					}
+					if unbindFirst { // ... also when no stream is left bound at that moment
+						logOp("Unbind all local streams")
+						for _, l := range locals {
+							if l.bound {
+								guard("UnbindLocalStream", func() { ic.UnbindLocalStream(l.info) })
+								l.bound = false
+							}
 						}
 					}
 				}
